@@ -870,6 +870,42 @@ def accessor_formulas(repo):
     out["vector_identity"] = t.count("om_assert(i<nlin());returnvalue[i];") == 2
     return out
 
+# ------------------------------------------------------------------ noexcept boundaries below the loop bodies
+REACHABLE = ["OpenMEEG/include/mesh.h", "OpenMEEG/include/triangle.h", "OpenMEEG/include/vertex.h", "OpenMEEG/include/edge.h",
+             "OpenMEEG/include/vect3.h", "OpenMEEG/include/analytics.h", "OpenMEEG/include/integrator.h", "OpenMEEG/include/dipole.h",
+             "OpenMEEG/include/operators.h", "OpenMEEG/include/progressbar.h", "OpenMEEG/include/OMExceptions.H",
+             "OpenMEEGMaths/include/matrix.h", "OpenMEEGMaths/include/symmatrix.h", "OpenMEEGMaths/include/vector.h", "OpenMEEGMaths/include/linop.h",
+             "OpenMEEG/src/operators.cpp", "OpenMEEG/src/mesh.cpp", "OpenMEEG/src/triangle.cpp", "OpenMEEG/src/assembleHeadMat.cpp"]
+THROWING = re.compile(r"\.at\s*\(|\bom_assert\b|\bom_error\b|\bthrow\b|rethrow_exception")
+
+def noexcept_problems(repo, defines):
+    """An exception that meets a noexcept boundary (a function marked noexcept, or a destructor) below a loop body
+    terminates the program before ThreadException::Run can capture it.  Every function of the headers / sources the loop
+    bodies call into that is `noexcept` (or a destructor) and whose body contains a throwing construct is reported."""
+    out = []
+    for rel in REACHABLE:
+        p = os.path.join(repo, rel)
+        if not os.path.exists(p): continue
+        try: text, _ = preprocess(strip_comments(open(p, errors="replace").read()), defines)
+        except Unknown as e:
+            out.append("%s: %s" % (rel, e)); continue
+        cands = []
+        for m in re.finditer(r"\bnoexcept\b(?!\s*\(\s*false\s*\))(?:\s*\([^)]*\))?\s*(?:override\s*|final\s*)*\{", text):
+            head = text[max(0, m.start() - 200):m.start()]
+            nm = re.findall(r"([~A-Za-z_][\w:~]*(?:\s*\(\s*\))?)\s*\([^()]*\)\s*(?:const\s*)?$", head)
+            cands.append((nm[-1] if nm else "?", m.end() - 1))
+        for m in re.finditer(r"(~\s*[A-Za-z_]\w*)\s*\(\s*\)\s*(?:override\s*)?\{", text):
+            cands.append((nows(m.group(1)), m.end() - 1))
+        for name, o in cands:
+            try: c = match_paren(text, o, "{", "}")
+            except Unknown: continue
+            body = text[o + 1:c]
+            t = THROWING.search(body)
+            if t:
+                out.append("%s:%d: `%s` is noexcept (or a destructor) but its body contains the throwing construct `%s`: an error raised there below a parallel loop body terminates the program instead of reaching ThreadException::Run"
+                           % (rel, text.count("\n", 0, o) + 1, name, t.group(0).strip()))
+    return out
+
 # ------------------------------------------------------------------ driver
 def gen_config(repo, tag, defines, files):
     problems = []
@@ -887,6 +923,8 @@ def gen_config(repo, tag, defines, files):
     for rel in files:
         r, dd, pr = analyse_file(repo, rel, defines, helpers_text, pb_empty, used)
         regions += r; dead += dd; problems += pr
+    nx = noexcept_problems(repo, defines)
+    problems += nx
     L = ["(* GENERATED by translators/t_parloops.py from the current sources -- do not edit.",
          "   Configuration `%s`: one descriptor per `#pragma omp parallel for` that is LIVE under the defines" % tag,
          "   %s." % " ".join(sorted(defines)),
@@ -903,6 +941,7 @@ def gen_config(repo, tag, defines, files):
     L.append("Definition gen_dead_pragmas : nat := %d." % len(dead))
     L.append("Definition gen_critical_sections : nat := %d." % sum(1 for r in regions if r["critical"]))
     L.append("Definition gen_critical_capture : bool := %s.   (* no exception can leave an omp critical construct *)" % ("true" if all(r["critical_capture"] for r in regions) else "false"))
+    L.append("Definition gen_throwing_noexcept : nat := %d.   (* noexcept functions / destructors below the loop bodies that contain a throwing construct *)" % len(nx))
     L.append("Definition gen_progressbar_empty : bool := %s." % ("true" if pb_empty else "false"))
     L.append("Definition gen_te_capture_locked : bool := %s." % ("true" if te["capture_locked"] else "false"))
     L.append("Definition gen_te_capture_stores : bool := %s." % ("true" if te["capture_stores"] else "false"))
